@@ -54,6 +54,12 @@ func (s *Scheme) SetStoredData(d []byte) {
 }
 
 func (s *Scheme) HandleMessage(msg *IncMessage) {
+	// Topics are always SHA-256 values
+	if len(msg.Topic) != sha256.Size {
+		s.Logger.Warnf("received message from %d with a topic of %d bytes", msg.Source, len(msg.Topic))
+		return
+	}
+
 	switch msg.MsgType {
 	case uint8(MsgTypeSync):
 		s.handleSync(msg)
